@@ -14,23 +14,38 @@ static cstl_map_t map;
 static int cmp_mod;               /* compare keys modulo cmp_mod when > 0 */
 static int cmpmode, cmpcalls;
 
+static int ptrrep;                /* 1: keys/values are integers cast to pointers (0 == NULL) */
 static int kcmp(const void * a, const void * b, void * p)
 {
-    int x = *(const int *)a, y = *(const int *)b; (void)p;
+    int x = ptrrep ? (int)(uintptr_t)a : *(const int *)a;
+    int y = ptrrep ? (int)(uintptr_t)b : *(const int *)b; (void)p;
     if (cmp_mod > 0) { x %= cmp_mod; y %= cmp_mod; }
     cmpcalls++;
     if (cmpmode == 1) return x - y;
     if (cmpmode == 2) return ((x > y) - (x < y)) * (1 + (cmpcalls * 7) % 13);
     return (x > y) - (x < y);
 }
-static int kid(const void * k) { return k ? (int)((const int *)k - keytab) : -1; }
-static int vid(const void * v) { return v ? (int)((const int *)v - valtab) : -1; }
+/* decode a key/value pointer of an entry that is present (pr != 0) or of an end iterator */
+static int kidp(const void * k, int pr)
+{
+    if (!pr) return k ? -2 : -1;
+    if (ptrrep) return (int)(uintptr_t)k;
+    return k ? (int)((const int *)k - keytab) : -3;
+}
+static int vidp(const void * v, int pr)
+{
+    if (!pr) return v ? -2 : -1;
+    if (ptrrep) return (int)(uintptr_t)v;
+    return v ? (int)((const int *)v - valtab) : -3;
+}
+static const void * kptr(int k) { return ptrrep ? (const void *)(uintptr_t)k : (const void *)&keytab[k]; }
+static void * vptr(int v) { return ptrrep ? (void *)(uintptr_t)v : (void *)&valtab[v]; }
 
 static int clr_log[2 * MAXV], clr_n, clr_bad;
 static void clr(void * ip, void * p)
 {
     cstl_map_iterator_t * i = ip; (void)p;
-    if (clr_n < MAXV) { clr_log[2 * clr_n] = kid(i->key); clr_log[2 * clr_n + 1] = vid(i->val); }
+    if (clr_n < MAXV) { clr_log[2 * clr_n] = kidp(i->key, 1); clr_log[2 * clr_n + 1] = vidp(i->val, 1); }
     if (i->_ != NULL) clr_bad = 1;
     clr_n++;
 }
@@ -45,7 +60,7 @@ static void shape(const struct cstl_bintree_node * n, const struct cstl_bintree_
     if (n->p != parent) malformed = 1;
     rn = (const void *)((const char *)n - offsetof(struct cstl_rbtree_node, n));
     mn = (const void *)((const char *)rn - offsetof(struct cstl_map_node, n));
-    printf(" (%d:%d%c", kid(mn->key), vid(mn->val), rn->c == CSTL_RBTREE_COLOR_R ? 'R' : 'B');
+    printf(" (%d:%d%c", kidp(mn->key, 1), vidp(mn->val, 1), rn->c == CSTL_RBTREE_COLOR_R ? 'R' : 'B');
     shape(n->l, n, depth + 1);
     shape(n->r, n, depth + 1);
     printf(")");
@@ -68,7 +83,7 @@ static void run_case(const struct h_case * c)
 
     for (i = 0; i < MAXK; i++) keytab[i] = i;
     ha_reset();
-    cmp_mod = 0; cmpmode = 0; cmpcalls = 0;
+    cmp_mod = 0; cmpmode = 0; cmpcalls = 0; ptrrep = 0;
     for (i = 0; i < c->nlines; i++) {
         const struct h_line * l = &c->lines[i];
         int a = (int)h_int(l, 1), b = (int)h_int(l, 2), rc;
@@ -76,32 +91,33 @@ static void run_case(const struct h_case * c)
         if (h_weq(l, 0, "failfrom")) { ha_fail_from = a; continue; }
         if (h_weq(l, 0, "cmpmod")) { cmp_mod = a; continue; }
         if (h_weq(l, 0, "cmpmode")) { cmpmode = a; continue; }
+        if (h_weq(l, 0, "ptrrep")) { ptrrep = a; continue; }
         if (!started) { cstl_map_init(&map, kcmp, NULL); started = 1; }
         if (a < 0 || a >= MAXK || b < 0 || b >= MAXV) { printf("precond\n"); return; }
         ha_active = 1;
         if (h_weq(l, 0, "insert")) {
-            rc = cstl_map_insert(&map, &keytab[a], &valtab[b], &it);
+            rc = cstl_map_insert(&map, kptr(a), vptr(b), &it);
             ha_active = 0;
-            printf("ok %d %d %d %d", rc, kid(it.key), vid(it.val), it._ != NULL);
+            printf("ok %d %d %d %d", rc, kidp(it.key, it._ != NULL), vidp(it.val, it._ != NULL), it._ != NULL);
         } else if (h_weq(l, 0, "insert_noiter")) {
-            rc = cstl_map_insert(&map, &keytab[a], &valtab[b], NULL);
+            rc = cstl_map_insert(&map, kptr(a), vptr(b), NULL);
             ha_active = 0;
             printf("ok %d", rc);
         } else if (h_weq(l, 0, "find")) {
-            cstl_map_find(&map, &keytab[a], &it);
+            cstl_map_find(&map, kptr(a), &it);
             ha_active = 0;
-            printf("ok %d %d %d", kid(it.key), vid(it.val),
+            printf("ok %d %d %d", kidp(it.key, it._ != NULL), vidp(it.val, it._ != NULL),
                    !cstl_map_iterator_eq(&it, cstl_map_iterator_end(&map)));
         } else if (h_weq(l, 0, "erase")) {
-            rc = cstl_map_erase(&map, &keytab[a], &it);
+            rc = cstl_map_erase(&map, kptr(a), &it);
             ha_active = 0;
-            printf("ok %d %d %d %d", rc, kid(it.key), vid(it.val), it._ != NULL);
+            printf("ok %d %d %d %d", rc, kidp(it.key, rc == 0), vidp(it.val, rc == 0), it._ != NULL);
         } else if (h_weq(l, 0, "erase_noiter")) {
-            rc = cstl_map_erase(&map, &keytab[a], NULL);
+            rc = cstl_map_erase(&map, kptr(a), NULL);
             ha_active = 0;
             printf("ok %d", rc);
         } else if (h_weq(l, 0, "erase_iter")) {
-            cstl_map_find(&map, &keytab[a], &it);
+            cstl_map_find(&map, kptr(a), &it);
             if (cstl_map_iterator_eq(&it, cstl_map_iterator_end(&map))) { ha_active = 0; printf("precond\n"); return; }
             cstl_map_erase_iterator(&map, &it);
             ha_active = 0;
